@@ -231,17 +231,39 @@ def coverOf (p : List Art) : Nat :=
 
 def traceName (a : Art) : String := match a.v with | .tok k => toString k.id | _ => ""
 
-/-- all rule applications (registry order, then window order); errors abort the whole search -/
+/-- one rule application at window offset `i`: the successor production, its trace and coverage -/
+def applyAt (ts : Ts) (name : String) (pat : List Pred) (prod : List Art) (trace : List String) (i : Nat) :
+    Except PyErr (Option (List Art × List String × Nat)) := do
+  match ← applyRule name ts ((prod.drop i).take pat.length) with
+  | some x =>
+    let np := prod.take i ++ x :: prod.drop (i + pat.length)
+    pure (some (np, trace ++ [name], coverOf np))
+  | none => pure none
+
+/-- left-to-right collection of optional results; the first exception aborts -/
+def foldOpt {β γ : Type} (g : β → Except PyErr (Option γ)) : List β → List γ → Except PyErr (List γ)
+  | [], acc => .ok acc
+  | i :: is, acc => match g i with
+    | .error e => .error e
+    | .ok (some s) => foldOpt g is (acc ++ [s])
+    | .ok none => foldOpt g is acc
+
+/-- left-to-right concatenation of list results; the first exception aborts -/
+def foldAppend {β γ : Type} (g : β → Except PyErr (List γ)) : List β → List γ → Except PyErr (List γ)
+  | [], acc => .ok acc
+  | r :: rs, acc => match g r with
+    | .error e => .error e
+    | .ok outs => foldAppend g rs (acc ++ outs)
+
+/-- all applications of one rule, in window order -/
+def expandRule (ts : Ts) (name : String) (pat : List Pred) (prod : List Art) (trace : List String) :
+    Except PyErr (List (List Art × List String × Nat)) :=
+  foldOpt (applyAt ts name pat prod trace) (matchRule prod pat) []
+
+/-- all rule applications (registry order, then window order); an exception aborts the whole search -/
 def expandArts (ts : Ts) (rules : List (String × List Pred)) (prod : List Art) (trace : List String) :
     Except PyErr (List (List Art × List String × Nat)) :=
-  rules.foldlM (fun acc (name, pat) => do
-    let outs ← (matchRule prod pat).foldlM (fun acc2 i => do
-      match ← applyRule name ts ((prod.drop i).take pat.length) with
-      | some x =>
-        let np := prod.take i ++ x :: prod.drop (i + pat.length)
-        pure (acc2 ++ [(np, trace ++ [name], coverOf np)])
-      | none => pure acc2) []
-    pure (acc ++ outs)) []
+  foldAppend (fun r => expandRule ts r.1 r.2 prod trace) rules []
 
 structure Scorer (S : Type) where
   lt : S → S → Bool
@@ -260,34 +282,42 @@ structure Cand (S : Type) where
   trace : List String
   score : S
 
-/-- `_ctparse` after label removal, on the normalised label-free text.  Rule errors are modelled by
-    `expandSafe`: the model is only meant for texts on which no production raises (C01); an error is
-    surfaced as `.error`. -/
-def searchCore (sc : Scorer S) (ts : Ts) (o : Opts) (txt : List Nat) (fuel : Nat) :
-    (List (Cand S) × Option PyErr) × List (List Art) :=
+/-- enumeration of the candidate sequences, initial scoring, ordering, `relative_match_len` filter and depth cut;
+    second component: number of deadline checks made before the main loop (one per DFS iteration, one per sequence) -/
+def initialStack (sc : Scorer S) (depth num den : Nat) (txt : List Nat) (fuel : Nat) : List (E Art S) × Nat :=
   let toks := matchRegex txt
-  let (seqs, nChecks) := regexStack txt toks fuel
-  -- deadline checks: one per DFS iteration, then one per sequence (initial stack), then one per main-loop iteration
-  let pre := nChecks + seqs.length
-  let expired : Bool := match o.deadline with | some k => decide (k < pre) | none => false
-  if expired then (([], none), []) else
-  let budget := o.deadline.map (· - pre)
-  let stack0 : List (E Art S) := seqs.map fun s =>
+  let r := regexStack txt toks fuel
+  let stack0 : List (E Art S) := r.1.map fun s =>
     { prod := s, trace := s.map traceName, cov := coverOf s, score := sc.score txt s (s.map traceName) (coverOf s), rules := filterRules s }
   let sorted := sortE sc.lt stack0
   let top := match sorted.getLast? with | some e => e.cov | none => 0
-  let kept := sorted.filter fun e => e.cov * o.relMatchLenDen ≥ top * o.relMatchLenNum
-  let stack := trunc o.depth kept
-  let cfg : Cfg Art S := {
-    lt := sc.lt
+  let kept := sorted.filter fun e => e.cov * den ≥ top * num
+  (trunc depth kept, r.2 + r.1.length)
+
+def mkCfg (sc : Scorer S) (ts : Ts) (depth : Nat) (txt : List Nat) : Cfg Art S :=
+  { lt := sc.lt
     expand := fun rules p t => expandArts ts rules p t
     scorer := fun p t n => sc.score txt p t n
     final := fun p t x => sc.final txt p t x
     isVal := Art.isVal
     keyEq := Art.pyEq
-    depth := o.depth }
-  let out := run cfg fuel budget stack [] []
-  ((out.1.map (fun (x, tr, s) => { res := x, trace := tr, score := s }), out.2), stack.map (·.prod))
+    depth := depth }
+
+/-- does the deadline (index of the first failing check) fall before the main loop, after `pre` checks -/
+def expiredAt : Option Nat → Nat → Bool
+  | some k, pre => decide (k < pre)
+  | none, _ => false
+
+def toCand (o : Art × List String × S) : Cand S := { res := o.1, trace := o.2.1, score := o.2.2 }
+
+/-- `_ctparse` after label removal, on the normalised label-free text: candidates, the exception that ended the
+    stream (if any), and the productions of the initial stack (for the subject) -/
+def searchCore (sc : Scorer S) (ts : Ts) (o : Opts) (txt : List Nat) (fuel : Nat) :
+    (List (Cand S) × Option PyErr) × List (List Art) :=
+  let st := initialStack sc o.depth o.relMatchLenNum o.relMatchLenDen txt fuel
+  if expiredAt o.deadline st.2 then (([], none), []) else
+  let out := run (mkCfg sc ts o.depth txt) fuel (o.deadline.map (· - st.2)) st.1 [] []
+  ((out.1.map toCand, out.2), st.1.map (·.prod))
 
 structure Parse (S : Type) where
   cands : List (Cand S)
